@@ -31,6 +31,9 @@ package dns
 //@   ensures len(b) == 4 || len(b) == 8 ==> ret0 == nil && e.Lease == b[0]*16777216 + b[1]*65536 + b[2]*256 + b[3]
 //@   ensures len(b) == 4 ==> e.KeyLease == 0
 //@   ensures len(b) == 8 ==> e.KeyLease == b[4]*16777216 + b[5]*65536 + b[6]*256 + b[7]
+// converse direction of C01: packing what was unpacked gives back as many octets (pack's length is a function of
+// KeyLease, see its contract)
+//@   ensures canon: ret0 == nil ==> (e.KeyLease == 0 ? 4 : 8) == len(b)
 
 // EXPIRE: empty, or EXPIRE(4)
 //@ func (*EDNS0_EXPIRE).pack [C01]
@@ -47,6 +50,7 @@ package dns
 //@   ensures len(b) == 2 ==> ret0 == nil && e.Timeout == b[0]*256 + b[1]
 //@   ensures len(b) == 0 ==> ret0 == nil
 //@   ensures len(b) != 0 && len(b) != 2 ==> ret0 != nil
+//@   ensures canon: ret0 == nil ==> (e.Timeout == 0 ? 0 : 2) == len(b)
 
 // EDE: INFO-CODE(2) EXTRA-TEXT
 //@ func (*EDNS0_EDE).pack [C01]
